@@ -31,7 +31,7 @@ M = [
  ('c08-revert-zero-seg-fix', 'C08', FS, '\t\t\t\tif blkLen > 0 {\n', '\t\t\t\tif blkLen >= 0 {\n'),
  ('c08-read-eof-early', 'C08', FS, '\t\t\tif ptr.segmentIdx < len(fn.segments) && err == io.EOF {\n\t\t\t\terr = nil\n\t\t\t}\n', ''),
  ('c09-commit-before-err', 'C09', FS, '\t\tlocator, _, err := dn.fs.PutB(block)\n\t\tdn.fs.throttle().Release()\n\t\tif err != nil {\n\t\t\terrs <- err\n\t\t\treturn\n\t\t}\n', '\t\tlocator, _, err := dn.fs.PutB(block)\n\t\tdn.fs.throttle().Release()\n\t\tif err != nil {\n\t\t\terrs <- err\n\t\t\tlocator = "d41d8cd98f00b204e9800998ecf8427e+0"\n\t\t}\n'),
- ('c09-prune-replace-on-error', 'C09', FS, '\t\t\tif err != nil {\n\t\t\t\t// TODO: stall (or return errors from)\n\t\t\t\t// subsequent writes until flushing\n\t\t\t\t// starts to succeed.\n\t\t\t\treturn\n\t\t\t}\n', '\t\t\tif err != nil {\n\t\t\t\tlocator = fmt.Sprintf("%x+%d", md5.Sum(buf), len(buf))\n\t\t\t}\n'),
+ ('c09-prune-replace-on-error', 'C09', FS, '\t\t\tif err != nil {\n\t\t\t\t// TODO: stall (or return errors from)\n\t\t\t\t// subsequent writes until flushing\n\t\t\t\t// starts to succeed.\n\t\t\t\treturn\n\t\t\t}\n', '\t\t\tif err != nil {\n\t\t\t\tlocator = "d41d8cd98f00b204e9800998ecf8427e+0"\n\t\t\t}\n'),
  ('c09-no-empty-dir-marker', 'C09', FS, '\t\treturn manifestEscape(prefix) + " d41d8cd98f00b204e9800998ecf8427e+0 0:0:\\\\056\\n", nil\n', '\t\treturn "", nil\n'),
  ('c09-escape-no-backslash', 'C09', FS, 'var manifestEscapedChar = regexp.MustCompile(`[\\000-\\040:\\s\\\\]`)', 'var manifestEscapedChar = regexp.MustCompile(`[\\000-\\040:\\s]`)'),
  ('c09-flush-ignores-error', 'C09', FS, '\tif opts.shortBlocks {\n\t\tgoCommit(pending, pendingLen)\n\t}\n\treturn cg.Wait()\n', '\tif opts.shortBlocks {\n\t\tgoCommit(pending, pendingLen)\n\t}\n\tcg.Wait()\n\treturn nil\n'),
